@@ -51,58 +51,33 @@ def run(m, rep, tier):
 
     # ---- V2 ------------------------------------------------------------------------
     v2 = rep.rule('V2', 'capacity change committed only when realloc succeeded; old block handed to realloc', floor=2)
-    # vector.c with its private helpers inlined into their callers: the allocation and the commit of its result may sit in
-    # one function (the capacity setter) or be split into "get the storage" and "commit it"
-    mod = m.focus('vector') if m.plain.get('vector') is not None else None
-    if mod is None:
+    # two faithful views of vector.c: as written (the capacity setter holds both the allocation and the commit), and with
+    # the private helpers inlined into their callers (the allocation and the commit may have been split into "get the
+    # storage" and "commit it").  Each view is a complete check of the unit; the rule holds if it holds in one of them.
+    if m.plain.get('vector') is None:
         v2.undecided('vector', 'unit vector.c not in the model')
     else:
-        for f in mod.defined():
-            for c in alloc_calls(f):
-                bad, n = check_alloc(f, c)
-                site = '%s:%s' % (f.name, c.callee)
-                if c.callee == 'realloc':
-                    old = f.get(c.o[0])
-                    a = resolve_addr(f, old.o[0]) if (old is not None and old.op == 'load') else None
-                    if a is None or vec_field(a) != 'elem.base':
-                        bad.append((c, 'realloc is not given the vector\'s current block (elem.base): kept elements would not be preserved'))
-                if bad:
-                    v2.violation(site, '; '.join(t for _, t in bad), c.loc(), {})
-                else:
-                    v2.ok(site, '%d use(s)/store(s) under result != NULL' % n, c.loc())
-        # writers of cap / elem.base anywhere in the library
-        others = [f for f in m.all_plain_functions() if not (f.file or '').endswith('/vector.c') and mod.fn(f.name) is None]
-        for f in list(mod.defined()) + others:
-            for s in f.all_insts():
-                if s.op != 'store':
-                    continue
-                fld = vec_field(resolve_addr(f, s.o[1]))
-                if fld not in ('cap', 'elem.base'):
-                    continue
-                site = '%s:store:%s' % (f.name, fld)
-                if const_int(s.o[0]) == 0:
-                    v2.ok(site, 'constant 0/NULL (initial state)', s.loc())
-                    continue
-                acs = alloc_calls(f)
-                pv = Prover(f)
-                from .util import swap_coverage
-                cov = swap_coverage(m, f)
-                if cov is not None and cov[2] and not cov[3] and not cov[4]:
-                    v2.ok(site, 'part of a complete exchange of two vectors: base and capacity travel together (V8)', s.loc())
-                    continue
-                if acs and any(nonnull_at(f, pv, aliases(f, c.ref), s) for c in acs):
-                    v2.ok(site, 'in the success region of the allocation', s.loc())
-                else:
-                    v2.violation(site, 'store to vector %s outside the capacity setter\'s success region: the reported capacity/base '
-                                 'no longer matches an allocation' % fld, s.loc(), {})
+        verdicts = None
+        for view, mod in (('as written', m.plain['vector']), ('private helpers inlined', m.focus('vector'))):
+            out = _v2_eval(m, mod)
+            if verdicts is None or not any(k == 'violation' for k, *_ in out):
+                verdicts = out
+            if not any(k == 'violation' for k, *_ in out):
+                break
+        for k, site, text, loc in verdicts:
+            if k == 'violation':
+                v2.violation(site, text, loc, {})
+            else:
+                v2.ok(site, text, loc)
 
     # ---- V3 ------------------------------------------------------------------------
     v3 = rep.rule('V3', 'cstl_vector_at_const: returns under i < count, aborts only under count <= i', floor=1)
-    f = m.ifn('cstl_vector_at_const')
-    if f is None:
-        v3.undecided('cstl_vector_at_const', 'not found')
-    else:
-        check_at(m, f, v3, 'count')
+    for _nm in ('cstl_vector_at_const', 'cstl_vector_at'):
+        f = m.ifn(_nm)
+        if f is None:
+            v3.undecided(_nm, 'not found')
+        else:
+            check_at(m, f, v3, 'count')
 
     # ---- V4 ------------------------------------------------------------------------
     v4 = rep.rule('V4', 'resize: size change and xtor calls only under sz <= cap (else abort); reserve grows only when sz > cap', floor=2)
@@ -368,6 +343,50 @@ def run(m, rep, tier):
     check_assert_effects(m, _ae, ('vector.c', 'vector.h'))
 
 
+def _v2_eval(m, mod):
+    """[(kind, site, text, loc)] of V2 on one view of vector.c (plus every other function of the library that writes cap/base)"""
+    out = []
+    for f in mod.defined():
+        for c in alloc_calls(f):
+            bad, n = check_alloc(f, c)
+            site = '%s:%s' % (f.name, c.callee)
+            if c.callee == 'realloc':
+                old = f.get(c.o[0])
+                a = resolve_addr(f, old.o[0]) if (old is not None and old.op == 'load') else None
+                if a is None or vec_field(a) != 'elem.base':
+                    bad.append((c, 'realloc is not given the vector\'s current block (elem.base): kept elements would not be preserved'))
+            if bad:
+                out.append(('violation', site, '; '.join(t for _, t in bad), c.loc()))
+            else:
+                out.append(('ok', site, '%d use(s)/store(s) under result != NULL' % n, c.loc()))
+    # writers of cap / elem.base anywhere in the library
+    others = [f for f in m.all_plain_functions() if not (f.file or '').endswith('/vector.c') and mod.fn(f.name) is None]
+    from .util import swap_coverage
+    for f in list(mod.defined()) + others:
+        for s in f.all_insts():
+            if s.op != 'store':
+                continue
+            fld = vec_field(resolve_addr(f, s.o[1]))
+            if fld not in ('cap', 'elem.base'):
+                continue
+            site = '%s:store:%s' % (f.name, fld)
+            if const_int(s.o[0]) == 0:
+                out.append(('ok', site, 'constant 0/NULL (initial state)', s.loc()))
+                continue
+            acs = alloc_calls(f)
+            pv = Prover(f)
+            cov = swap_coverage(m, f)
+            if cov is not None and cov[2] and not cov[3] and not cov[4]:
+                out.append(('ok', site, 'part of a complete exchange of two vectors: base and capacity travel together (V8)', s.loc()))
+                continue
+            if acs and any(nonnull_at(f, pv, aliases(f, c.ref), s) for c in acs):
+                out.append(('ok', site, 'in the success region of the allocation', s.loc()))
+            else:
+                out.append(('violation', site, 'store to vector %s outside the capacity setter\'s success region: the reported capacity/base '
+                            'no longer matches an allocation' % fld, s.loc()))
+    return out
+
+
 def check_at(m, f, rule, lenfield, index_arg='$1'):
     pv = Prover(f)
     bad = []
@@ -410,48 +429,52 @@ def _is_copy_guard_abort(f, facts):
 
 
 def check_resize(m, f, rule):
-    pv = Prover(f)
-    bad = []
-    caps = [i for i in f.all_insts() if i.op == 'load' and vec_field(resolve_addr(f, i.o[0])) == 'cap']
-    cap_stores = [i for i in f.all_insts() if i.op == 'store' and vec_field(resolve_addr(f, i.o[1])) == 'cap']
-    n = 0
-    for i in f.all_insts():
-        is_count_store = i.op == 'store' and vec_field(resolve_addr(f, i.o[1])) == 'count'
-        is_xtor = i.op == 'call' and i.callee is None
-        if not (is_count_store or is_xtor):
-            continue
-        n += 1
-        ok = False
-        for L in caps:
-            if ('ule', '$1', L.ref) in pv.facts_at(i):
-                # the capacity must not change between that read and here
-                if not any(f.dominates(L, s) for s in cap_stores):
-                    ok = True
+    """path-sensitive: at every store of the count and every constructor / destructor call the capacity, as it stands on
+    that path, is known to be at least the request -- it was just set to the request by a successful reallocation, or a
+    value read from it since its last change was compared with the request.  (The short-capacity edge therefore cannot
+    reach them: it aborts.)"""
+    bad = set()
+    n_events = [0]
+
+    def transfer(ins, st, ps):
+        capval, fresh = st
+        if ins.op == 'call':
+            if ins.x.get('noreturn'):
+                return None
+            if ins.callee is None:
+                ev = 'constructor/destructor call'
+            else:
+                return st
+        elif ins.op == 'load' and resolve_addr(f, ins.o[0]).root == '$0' and vec_field(resolve_addr(f, ins.o[0])) == 'cap':
+            return (capval if capval is not None else ins.ref, fresh | {ins.ref})
+        elif ins.op == 'store' and resolve_addr(f, ins.o[1]).root == '$0' and vec_field(resolve_addr(f, ins.o[1])) == 'cap':
+            v = ps.lookup(_k(ins.o[0])) if isinstance(ins.o[0], str) else ins.o[0]
+            return (v, frozenset())
+        elif ins.op == 'store' and resolve_addr(f, ins.o[1]).root == '$0' and vec_field(resolve_addr(f, ins.o[1])) == 'count':
+            ev = 'store to count'
+        else:
+            return st
+        n_events[0] += 1
+        cands = set(fresh) | ({capval} if capval is not None else set())
+        ok = (isinstance(capval, str) and strip_bitcasts(f, capval) == '$1') or any(ps.knows(('ule', '$1', x)) is True for x in cands if isinstance(x, str))
         if not ok:
-            what = 'store to count' if is_count_store else 'constructor/destructor call'
-            bad.append('%s at %s is not dominated by the re-check `sz <= v->cap` after the capacity request' % (what, i.loc()))
-    # the failing edge must abort
-    from ..facts import edge_atoms
-    guard_edges = 0
-    for b in f.blocks:
-        if len(b.succ) < 2:
-            continue
-        for s in b.succ:
-            atoms, _ = edge_atoms(f, b, s)
-            for (op, x, y) in atoms:
-                xi = f.get(x)
-                if op == 'ult' and y == '$1' and xi is not None and xi in caps and not any(f.dominates(xi, st) for st in cap_stores):
-                    guard_edges += 1
-                    if not abort_only(f, s):
-                        bad.append('when the capacity is still short after the request (%s -> %s) resize does not abort' % (b.name, s.name))
-    if guard_edges == 0:
-        bad.append('no check of `v->cap < sz` after the capacity request')
-    if n == 0:
-        bad.append('resize never stores the element count')
-    if bad:
-        rule.violation(f.name, '; '.join(sorted(set(bad))[:4]), floc(m, f), {})
+            bad.add('%s at %s on a path on which the capacity is not known to cover the request (no successful reallocation to the request, no '
+                    'comparison of the request with the capacity as it stands): elements beyond the storage would be constructed / counted' % (ev, ins.loc()))
+        return st
+    try:
+        res = typestate.run(f, (None, frozenset()), transfer, limit=200000)
+    except typestate.Limit as e:
+        rule.undecided(f.name, str(e), floc(m, f))
+        return
+    if n_events[0] == 0:
+        rule.violation(f.name, 'resize never stores the element count', floc(m, f), {})
+    elif not any(i.op == 'call' and i.x.get('noreturn') for i in f.all_insts()):
+        rule.violation(f.name, 'resize has no aborting path: a growth that cannot be satisfied must abort', floc(m, f), {})
+    elif bad:
+        rule.violation(f.name, '; '.join(sorted(bad)[:3]), floc(m, f), {})
     else:
-        rule.ok(f.name, '%d count store(s)/xtor call(s) under sz <=u cap; short capacity aborts' % n, floc(m, f))
+        rule.ok(f.name, 'count stores / xtor calls only where the capacity on that path covers the request (%d exit state(s)); short capacity aborts'
+                % len(res.exits), floc(m, f))
 
 
 def check_scratch(m, rule):
